@@ -184,7 +184,7 @@ def sm_view(ans):
 # ------------------------------------------------------------------ check
 def run_ops(binpath, cases):
     reqs = [{"mode": "ops", "store": s, "ops": [R.op_serde(o) for o in ops]} for s, ops in cases]
-    return harness.run_jsonl(binpath, reqs, timeout=1500)
+    return R.run_batched(binpath, reqs, chunk=150, nproc=6)
 
 
 def check(run):
@@ -206,10 +206,10 @@ def check(run):
         return
     rng = run.rng
     ex = concurrent.futures.ThreadPoolExecutor(max_workers=2)
-    suite_f = {st: ex.submit(harness.run_jsonl, binpath, [{"mode": "suite", "store": st}], (), 600) for st in ("mem", "rocks")}
+    suite_f = {st: ex.submit(harness.run_jsonl, binpath, [{"mode": "suite", "store": st}], (), 2400) for st in ("mem", "rocks")}
 
     # ---- (a) determinism / snapshot equivalence
-    ngroups = 40 if run.tier == "quick" else 400
+    ngroups = 40 if run.tier == "quick" else 150
     groups = [sm_group(rng, 1 + (g % 10), run.tier) for g in range(ngroups)]
     # corpus: the shapes that failed on the unchanged tree are covered by (b)/(c); one hand-written group with every guard of MigrationStarted
     cases = []
@@ -217,7 +217,7 @@ def check(run):
         for store, label, ops in variants:
             cases.append((store, ops, ("sm", gi, label)))
     # ---- (b) contract sequences
-    nseq = 120 if run.tier == "quick" else 1500
+    nseq = 120 if run.tier == "quick" else 800
     corpus = [[("append", R.gen_log(rng, 3, start=0)), ("purge", (1, 1, 0)), ("purge", (9, 1, 2)), ("purge", (9, 2, 3))],
               [("append", R.gen_log(rng, 10, start=1)), ("purge", (1, 1, 20)), ("range", ("i", 0), ("e", 100))],
               [("build",)], [("apply", R.gen_log(rng, 2)), ("build",), ("apply", R.gen_log(rng, 2, start=3)), ("build",)]]
